@@ -77,7 +77,8 @@ def judge(op, data_i, code, rcode, text, o, ns):
 
 
 def status_task(t):
-    op, tier = t
+    op, tier = t[:2]
+    debug = len(t) > 2 and t[2]  # the same replies read by a client created with debug=True (its trace must not change any outcome)
     ns = None
     viols = []
     n = 0
@@ -89,7 +90,7 @@ def status_task(t):
             datas = list(range(len(DATA[op])))
         for di in datas:
             srv = W.ScriptedServer(store={"a": b"keep;\r\n"}, active="a", version=(op in ("checkscript", "renamescript")))
-            s = wire.open_session(srv)
+            s = wire.open_session(srv, debug=debug)
             reply = (DATA[op][di] if di is not None else b"") + line
             srv.script = [reply]
             if code == b"BYE":
@@ -104,9 +105,9 @@ def status_task(t):
                 bad = ("unread-bytes", "%d bytes of the reply left unread" % o.leftover)
             if bad:
                 viols.append({
-                    "property": "C09", "engine": "wire", "signature": ["C09", op, label, bad[0]],
+                    "property": "C09", "engine": "wire", "signature": ["C09", op + ("/debug" if debug else ""), label, bad[0]],
                     "what": "%s answered %r: %s" % (op, reply, bad[1]),
-                    "case": {"kind": "status", "op": op, "label": label, "data_i": di},
+                    "case": {"kind": "status", "op": op, "label": label, "data_i": di, "debug": debug},
                     "witness": "%s <- %r" % (op, reply), "observed": o.brief(),
                 })
             elif sample is None and code == b"NO" and rcode and text:
@@ -269,7 +270,7 @@ def multi_task(t):
 
 
 def run(tier, seed):
-    r1 = pool.run_tasks("checks.c09:status_task", [(op, tier) for op in OPS])
+    r1 = pool.run_tasks("checks.c09:status_task", [(op, tier) for op in OPS] + [(op, tier, True) for op in OPS])
     r2 = pool.run_tasks("checks.c09:multi_task", ["connect", "rename"])
     pair_ops = ["havespace", "getscript"] if tier == "quick" else list(OPS)
     r3 = pool.run_tasks("checks.c09:pair_task", [(op, i, 8) for op in pair_ops for i in range(8)])
@@ -303,7 +304,7 @@ def replay(payload):
         r = long_task((c["op"], "thorough"))
         return [v for v in r["violations"] if v["case"]["label"] == c["label"] and v["case"]["seg"] == c["seg"]]
     if c["kind"] == "status":
-        r = status_task((c["op"], "quick"))
+        r = status_task((c["op"], "quick", bool(c.get("debug"))))
     else:
         r = multi_task("connect" if c["kind"] == "connect" else "rename")
     return [v for v in r["violations"] if v["signature"] == sig]
